@@ -215,7 +215,10 @@ def gen_and_run_kinds(ctx):
             ctx.count("kind_" + kind)
             ctx.count("rejected_both" if res["rej_single"] and res["rej_batch"] else "accepted" if not res["rej_single"] and not res["rej_batch"] else "rejected_one")
             diff, rej_diff = oracle(ctx, kind, case, res)
-            if kind in MODELLED:
+            if "std_names" in case:
+                ctx.count("line_std_list_%s" % ("mixed" if len(set(case["std_names"])) > 1 else "homogeneous"))
+            # the Coq model takes one std type for all elements: heterogeneous lists are checked by the oracle only
+            if kind in MODELLED and set(case.get("std_names", ["S"])) == {"S"}:
                 terms.append(model_term(kind, case, res))
                 keep.append((kind, case, res, diff, rej_diff))
     model = ctx.coq_eval("c24", "Base.QN C24.Model", terms, shard=45)
